@@ -142,8 +142,8 @@ def gen_value_case(ch):
                 n = {'short': ch.int(1, max(1, nbytes - 1)), 'exact': nbytes, 'long': nbytes + ch.int(1, 5)}[k]
                 # (NUL octets and octet pairs that happen to be valid UTF-8 are ordinary latin-1 characters of the field)
                 txt = ''.join(ch.choice('abcXYZ 09-\xe9\xff"\'\x00\x00\xc3\xbc') for _ in range(n))
-                if set(txt) == {'\x00'}:
-                    txt = 'a' + txt[1:]        # an all-NUL value is outside the domain (DESIGN 10-2)
+                if set(txt[:nbytes]) == {'\x00'} and len(txt) >= nbytes:
+                    txt = 'a' + txt[1:]        # a value that fills the field with NULs is outside the domain (DESIGN 10-2)
                 inputs.append(txt)
         return ValueCase(mv, ids, pos, inputs, compressed, ch.choice([4, 3]))
     if f.nbits > 40 or f.nbits < 1:
